@@ -162,6 +162,8 @@ def c12(ck, tmp):
     rng = ck.rng
     nfiles = 40 if ck.tier == "quick" else 600
     for it in range(nfiles):
+        if len(ck.violations) > 5:
+            break           # enough failing inputs for a replay; under a defect the remaining files can be very slow
         g = G.rgfa(rng, maxlen=40, max_ref_segs=5)
         if it % 6 == 0:   # one long node so that a > 60 000-base alignment exists
             g.segs[0]["seq"] = G.rseq(rng, 60500)
